@@ -179,12 +179,17 @@ def _through_calculation_case(case, tier, seed):
     from periodictable import activation
     res = dict(paths=1, claims=0, discharged=0, queries=0, distinct=0, violations=[], inconclusive=[], samples=[], solver_s=0.0, complete=True)
     env = activation.ActivationEnvironment(fluence=1e13, Cd_ratio=0., fast_ratio=10.)
-    for ftxt, mass in (('Co', 1.0), ('Au', 0.5), ('Co30Fe70', 2.0), ('NaAlSi3O8', 1.0), ('SrTiO3', 1.0)):
+    beamline = activation.ActivationEnvironment(fluence=1e5, Cd_ratio=0., fast_ratio=50.)
+    reactor = env
+    for ftxt, mass in (('Co', 1.0), ('Au', 0.5), ('Co30Fe70', 2.0), ('NaAlSi3O8', 1.0), ('SrTiO3', 1.0), ('Mg', 1.0), ('SnTe', 1.0)):
+        # (Mg, Sn, Te at a beam-line fluence: some products come out with an activity of exactly zero)
+        env = beamline if ftxt in ('Mg', 'SnTe') else reactor
         ref = None
-        for rests in ([0], [0, 1, 24, 360], [24, 0], [360, 24, 1, 0], [1, 0, 24], (0, 5)):
+        for rests in ([0], [0, 1, 24, 360], [24, 0], [360, 24, 1, 0], [1, 0, 24], (0, 5)) + (([24, 48], [1], [48, 2]) if ftxt in ('Co', 'Au') else ()):
             s = activation.Sample(ftxt, mass)
             s.calculate_activation(env, exposure=10, rest_times=rests)
-            total0 = sum(v[list(rests).index(0)] for v in s.activity.values())
+            if 0 in list(rests):
+                total0 = sum(v[list(rests).index(0)] for v in s.activity.values())
             for frac in (0.5, 0.01, 1e-4):
                 res['claims'] += 1
                 target = total0 * frac
